@@ -66,13 +66,16 @@ def run(chk):
     members = {m.f["value"]: m for m in Arch.members}
     FN = "dep_logic.tags.platform:Platform.compatible_tags"
 
-    def tags_of(os_obj, arch_member):
+    kept = []   # (label, platform object, snapshot of its tag list) — re-read at the end: results must not change retroactively
+
+    def tags_of(os_obj, arch_member, label=None):
         p = it.construct(dom.Platform, [os_obj, arch_member], {})
         it.trace.clear()
         try:
             r = it.getattr(p, "compatible_tags")
         except PyRaise as e:
             return ("raise", repr(e.exc))
+        kept.append((label or "?", p, list(r)))
         return list(r)
 
     def mk(osname, *args):
@@ -84,7 +87,7 @@ def run(chk):
         chk.require(arch in members, f"Arch member {arch} missing")
         for minor in range(5, 51):
             n += 1
-            got = tags_of(mk("Manylinux", 2, minor), members[arch])
+            got = tags_of(mk("Manylinux", 2, minor), members[arch], f"manylinux_2_{minor}_{arch}")
             exp = spec_manylinux(minor, arch)
             key = f"{FN}:manylinux:{'x86' if FLOOR.get(arch) == 5 else 'floor17' if arch in FLOOR else 'nofloor'}"
             _cmp(chk, key, f"manylinux_2_{minor}_{arch}", got, exp, ordered=True)
@@ -92,25 +95,52 @@ def run(chk):
     for arch in FLOOR:
         for minor in range(1, 6):
             n += 1
-            got = tags_of(mk("Musllinux", 1, minor), members[arch])
+            got = tags_of(mk("Musllinux", 1, minor), members[arch], f"musllinux_1_{minor}_{arch}")
             _cmp(chk, f"{FN}:musllinux", f"musllinux_1_{minor}_{arch}", got, spec_musllinux(minor, arch), ordered=False)
     # macOS
     for minor in range(4, 17):
         n += 1
-        got = tags_of(mk("Macos", 10, minor), members["x86_64"])
+        got = tags_of(mk("Macos", 10, minor), members["x86_64"], f"macos_10_{minor}_x86_64")
         _cmp(chk, f"{FN}:macos10-x86_64", f"macos_10_{minor}_x86_64", got, spec_macos(10, minor, "x86_64"), ordered=True, drop_fat=True)
     for major in range(11, 31):
         for minor in (0, 3):
             for arch, am in (("x86_64", members["x86_64"]), ("arm64", members["aarch64"])):
                 n += 1
-                got = tags_of(mk("Macos", major, minor), am)
+                got = tags_of(mk("Macos", major, minor), am, f"macos_{major}_{minor}_{arch}")
                 _cmp(chk, f"{FN}:macos11+-{arch}", f"macos_{major}_{minor}_{arch}", got, spec_macos(major, minor, arch), ordered=True, drop_fat=True)
     # windows
     for arch, tag in (("x86", "win32"), ("x86_64", "win_amd64"), ("aarch64", "win_arm64")):
         n += 1
-        got = tags_of(mk("Windows"), members[arch])
+        got = tags_of(mk("Windows"), members[arch], f"windows_{arch}")
         _cmp(chk, f"{FN}:windows", f"windows_{arch}", got, {tag}, ordered=False)
     chk.instance("R09.1", n)
+    # second pass in the opposite order on the SAME interpreter state: a result must not depend on what was computed before
+    # (hand-rolled memo tables, shared lists trimmed or extended in place)
+    chk.rule("R09.4", "tag lists do not depend on evaluation order and do not change retroactively")
+    second = 0
+    for minor in range(50, 4, -7):
+        for arch in ("x86_64", "aarch64"):
+            second += 1
+            _cmp(chk, f"{FN}:manylinux:order-dependence", f"manylinux_2_{minor}_{arch} (second pass, descending)", tags_of(mk("Manylinux", 2, minor), members[arch]),
+                 spec_manylinux(minor, arch), ordered=True, rid="R09.4")
+    for major, minor in ((30, 0), (12, 0), (10, 16), (10, 9), (10, 4), (11, 0), (10, 12)):
+        second += 1
+        _cmp(chk, f"{FN}:macos:order-dependence", f"macos_{major}_{minor}_x86_64 (second pass)", tags_of(mk("Macos", major, minor), members["x86_64"]),
+             spec_macos(major, minor, "x86_64"), ordered=True, drop_fat=True, rid="R09.4")
+    for minor in (5, 1, 3):
+        second += 1
+        _cmp(chk, f"{FN}:musllinux:order-dependence", f"musllinux_1_{minor}_x86_64 (second pass)", tags_of(mk("Musllinux", 1, minor), members["x86_64"]),
+             spec_musllinux(minor, "x86_64"), ordered=False, rid="R09.4")
+    changed = 0
+    for label, pobj, snap in kept:
+        now = list(it.getattr(pobj, "compatible_tags"))
+        if now != snap:
+            changed += 1
+            chk.fail("R09.4", f"{FN}:retroactive-change", f"the tag list of {label} changed after later evaluations: {len(snap)} tags when computed, {len(now)} now "
+                     f"(first difference: {next((a, b) for a, b in zip(now + [None], snap + [None]) if a != b)})")
+    chk.instance("R09.4", second + len(kept))
+    if not changed:
+        chk.ok("R09.4", key="stable", n=len(kept))
     # R09.2 tables
     gm, _ = Arch.lookup("get_minimum_manylinux_minor")
     gf, _ = Arch.lookup("get_mac_binary_formats")
@@ -140,6 +170,9 @@ def run(chk):
         scores = [it.call(Bound(evp, spec), [t], {}) for t in tags]
         okk = all(isinstance(s, int) for s in scores) and all(a > b for a, b in zip(scores, scores[1:])) and scores[-1] >= 1
         foreign = it.call(Bound(evp, spec), ["no_such_platform_tag"], {})
+        again = [it.call(Bound(evp, spec), [t], {}) for t in tags]
+        if again != scores:
+            chk.fail("R09.3", "dep_logic.tags.tags:EnvSpec._evaluate_platform:unstable", f"platform scores change between two evaluations of the same tags: {scores[:4]} then {again[:4]}")
         if not okk or foreign is not None:
             chk.fail("R09.3", "dep_logic.tags.tags:EnvSpec._evaluate_platform",
                      f"platform scores are not strictly decreasing with list position / `any` not last and positive / foreign tag not None: {scores[:6]}.. foreign={foreign}")
@@ -157,9 +190,9 @@ def run(chk):
     chk.trusted += ["PEP 600/599/571/513, PEP 656 and the macOS tag rules as C09 states them (generator in vsa/props/c09.py)"]
 
 
-def _cmp(chk, construct, label, got, exp, ordered, drop_fat=False):
+def _cmp(chk, construct, label, got, exp, ordered, drop_fat=False, rid="R09.1"):
     if isinstance(got, tuple) and got and got[0] == "raise":
-        chk.fail("R09.1", construct, f"compatible_tags raises for {label}: {got[1]}")
+        chk.fail(rid, construct, f"compatible_tags raises for {label}: {got[1]}")
         return
     g = [t for t in got if not (drop_fat and ("_fat32" in t or "_fat64" in t))]
     if ordered:
@@ -167,7 +200,7 @@ def _cmp(chk, construct, label, got, exp, ordered, drop_fat=False):
     else:
         same = set(g) == set(exp) and len(g) == len(set(g))
     if same:
-        chk.ok("R09.1", key=label)
+        chk.ok(rid, key=label)
         if label in ("manylinux_2_17_x86_64", "macos_11_0_arm64"):
             chk.sample({"platform": label, "tags": g[:8], "n": len(g)})
         return
@@ -179,4 +212,4 @@ def _cmp(chk, construct, label, got, exp, ordered, drop_fat=False):
     else:
         i = next(i for i, (a, b) in enumerate(zip(g, exp)) if a != b)
         what += f"order differs from packaging.tags order at position {i}: {g[i]} vs {list(exp)[i]}"
-    chk.fail("R09.1", construct, what, {"platform": label, "derived_head": g[:10], "expected_head": list(exp)[:10]})
+    chk.fail(rid, construct, what, {"platform": label, "derived_head": g[:10], "expected_head": list(exp)[:10]})
